@@ -5,6 +5,9 @@
   PV_REPO=/tmp/x python -m pv.c14_demo run    run the check against a scratch copy
                                               (source mutant / candidate fix)
 
+  PV_C14_BINDINGS=B PV_REPO=/tmp/x python -m pv.c14_demo run   binding B alone (the
+                                              repository's tests under the recorder)
+
 Evidence and replays of these runs go to a scratch directory, not to /verif.
 Restrict the universes with PV_C14_ONLY=omp,loop to keep it short.'''
 import shutil
